@@ -125,6 +125,16 @@ Proof.
   rewrite (hex4v_of_vals _ _ _ _ (nib v 0) (nib v 1) (nib v 2) (nib v 3)); auto using hexval_hexchar.
 Qed.
 
+Lemma hex4ok_print : forall v up, v < 65536 ->
+  hex4ok (hexchar (nib v 0) (N.testbit up 0)) (hexchar (nib v 1) (N.testbit up 1))
+         (hexchar (nib v 2) (N.testbit up 2)) (hexchar (nib v 3) (N.testbit up 3)) = true.
+Proof.
+  intros v up H. pose proof (hex_facts v H) as Hc. unfold chk_hex in Hc.
+  repeat (apply andb_true_iff in Hc; destruct Hc as [Hc ?]).
+  apply N.ltb_lt in H1, H2, H3, H4. unfold hex4ok, is_hexd.
+  rewrite !hexval_hexchar by assumption. reflexivity.
+Qed.
+
 Lemma is_high_range : forall v, v < 65536 -> is_high v = (55296 <=? v) && (v <=? 56319).
 Proof.
   intros v H. pose proof (hex_facts v H) as Hc. unfold chk_hex in Hc.
@@ -151,7 +161,7 @@ Proof.
   - apply andb_true_iff in Hw. destruct Hw as [Hs Hlt]. apply N.ltb_lt in Hlt.
     rewrite hex4_print_eq. cbn [app].
     rewrite <- (hex4v_print cp up Hlt) at 5.
-    apply SB_u; [reflexivity|reflexivity| |assumption].
+    apply SB_u; [reflexivity|reflexivity|apply hex4ok_print; assumption| |assumption].
     rewrite hex4v_print by assumption. rewrite is_high_range by assumption.
     unfold is_scalar in Hs. apply orb_true_iff in Hs. destruct Hs as [Hs|Hs].
     + apply N.ltb_lt in Hs. replace (55296 <=? cp) with false by (symmetry; apply N.leb_gt; lia). reflexivity.
@@ -185,9 +195,9 @@ Proof.
       jc_u
       (hexchar (nib lo 0) (N.testbit (N.shiftr up 4) 0)) (hexchar (nib lo 1) (N.testbit (N.shiftr up 4) 1))
       (hexchar (nib lo 2) (N.testbit (N.shiftr up 4) 2)) (hexchar (nib lo 3) (N.testbit (N.shiftr up 4) 3))
-      t d eq_refl eq_refl) as G.
+      t d eq_refl eq_refl (hex4ok_print hi up H)) as G.
     rewrite (hex4v_print hi up H) in G. rewrite (hex4v_print lo (N.shiftr up 4) Hlo2) in G.
-    rewrite Hcode in G. apply G; try assumption; reflexivity.
+    rewrite Hcode in G. apply G; try assumption; try reflexivity. apply hex4ok_print; assumption.
 Qed.
 
 Theorem str_ok : forall w, str_ok_stmt w.
